@@ -75,6 +75,9 @@ struct Layout {
     key_of: HashMap<Address, Vec<u64>>,
     forks: Vec<State>,
     lts: Vec<LtHash>,
+    /// take a snapshot (clone) of the written fork before every write, so that every write of
+    /// this layout copies the path, and require the snapshot to be unchanged afterwards
+    snapshots: bool,
     /// digest of `lts[f]`, recomputed after every write to fork f
     digests: Vec<Option<alpenglow::execution::StateCommitment>>,
     entry_cache: HashMap<(Address, usize), LtHash>,
@@ -113,6 +116,7 @@ impl Layout {
             key_of: HashMap::new(),
             forks: Vec::new(),
             lts: Vec::new(),
+            snapshots: false,
             digests: Vec::new(),
             entry_cache: HashMap::new(),
         }
@@ -171,7 +175,25 @@ impl Layout {
         self.digests = (0..nf).map(|_| None).collect();
     }
 
-    /// one model action; returns the model name of the returned value
+    fn snapshot(&self, f: usize) -> Option<(State, Vec<(Address, Vec<u8>)>)> {
+        self.snapshots.then(|| {
+            let snap = self.forks[f].clone();
+            let entries = snap.iter().map(|(k, v)| (*k, v.to_vec())).collect();
+            (snap, entries)
+        })
+    }
+
+    /// the snapshot taken before the write still has the contents it had
+    fn snapshot_intact(snap: Option<(State, Vec<(Address, Vec<u8>)>)>) -> bool {
+        snap.is_none_or(|(snap, entries)| {
+            snap.len() == entries.len()
+                && snap.iter().map(|(k, v)| (*k, v.to_vec())).eq(entries.iter().cloned())
+                && entries.iter().all(|(k, v)| snap.get(k) == Some(v.as_slice()))
+        })
+    }
+
+    /// one model action; returns the model name of the returned value (-7: the snapshot taken
+    /// before the write changed)
     fn step(&mut self, act: &Value) -> i64 {
         let f = act["f"].as_u64().unwrap_or(1) as usize - 1;
         match act["op"].as_str().unwrap_or("") {
@@ -179,7 +201,11 @@ impl Layout {
                 let k: Vec<u64> = act["k"].as_array().unwrap().iter().map(|x| x.as_u64().unwrap()).collect();
                 let a = self.addr(&k);
                 let v = self.values[act["v"].as_u64().unwrap() as usize - 1].clone();
+                let snap = self.snapshot(f);
                 let old = self.forks[f].insert(a, v.clone());
+                if !Self::snapshot_intact(snap) {
+                    return -7;
+                }
                 self.lts[f].observe(&a, old.as_deref(), Some(&v));
                 self.digests[f] = None;
                 self.val_name(old.as_deref())
@@ -187,7 +213,11 @@ impl Layout {
             "rem" => {
                 let k: Vec<u64> = act["k"].as_array().unwrap().iter().map(|x| x.as_u64().unwrap()).collect();
                 let a = self.addr(&k);
+                let snap = self.snapshot(f);
                 let old = self.forks[f].remove(&a);
+                if !Self::snapshot_intact(snap) {
+                    return -7;
+                }
                 self.lts[f].observe(&a, old.as_deref(), None);
                 self.digests[f] = None;
                 self.val_name(old.as_deref())
@@ -321,11 +351,12 @@ impl StateDriver {
             }
         }
         spread.sort_unstable();
-        let layouts = vec![
+        let mut layouts = vec![
             Layout::new("shallow", shallow, nchunk, small, &mut rng),
             Layout::new("deep", deep, nchunk, zeros, &mut rng),
             Layout::new("spread", spread, nchunk, long, &mut rng),
         ];
+        layouts[2].snapshots = true;
         Self { timing: [0; 3], nf, keys, layouts }
     }
 
@@ -334,6 +365,7 @@ impl StateDriver {
             self.layouts
                 .iter()
                 .map(|l| json!({"name": l.name, "chunk_positions": l.pos, "chunk_values": l.cv,
+                                "snapshot_before_every_write": l.snapshots,
                                 "values": l.values.iter().map(|v| hex(v)).collect::<Vec<_>>()}))
                 .collect(),
         )
@@ -386,7 +418,9 @@ impl Driver for StateDriver {
             return d;
         }
         for (i, r) in got["ret"].as_array().unwrap().iter().enumerate() {
-            if r.as_i64() != exp["ret"].as_i64() {
+            if r.as_i64() == Some(-7) {
+                d.push(format!("snapshot@{}", self.layouts[i].name));
+            } else if r.as_i64() != exp["ret"].as_i64() {
                 d.push(format!("ret@{}", self.layouts[i].name));
             }
         }
